@@ -515,8 +515,47 @@ type Out struct{ A string }
 	return &World{Name: "T16", Module: DefaultModule, Files: files, Patterns: pats, Tags: []string{"T16", "pattern-import-cycle", "failing"}}
 }
 
+// T17: enums under matchIgnoreCase where a source member has no equally spelled target member
+// but several that differ in capitalisation only. Today goverter refuses this (deterministic
+// diagnostic); should it ever resolve such members, the choice must not follow map order.
+func T17(rng *rand.Rand) *World {
+	src := `package t17
+
+// goverter:converter
+// goverter:matchIgnoreCase
+// goverter:enum:unknown @error
+type Converter interface {
+	Convert(source Status) (Level, error)
+	ConvertAll(source Holder) (HolderOut, error)
+}
+
+type Holder struct{ S Status; L []Status }
+type HolderOut struct{ S Level; L []Level }
+
+type Status int
+
+const (
+	StatusOk Status = iota
+	StatusFailed
+	StatusPending
+)
+
+type Level int
+
+const (
+	STATUSOK Level = iota
+	StatusOK
+	Statusok
+	STATUSFAILED
+	STATUSPENDING
+	StatusPENDING
+)
+`
+	return &World{Name: "T17", Module: DefaultModule, Files: map[string]string{"t17/c.go": src}, Patterns: []string{"./t17"}, Tags: []string{"T17", "enum-ignore-case"}}
+}
+
 // Templates lists all template constructors.
-var Templates = []func(*rand.Rand) *World{T1, T2, T3, T4, T5, T6, T7, T8, T9, T10, T11, T12, T13, T14, T15, T16}
+var Templates = []func(*rand.Rand) *World{T1, T2, T3, T4, T5, T6, T7, T8, T9, T10, T11, T12, T13, T14, T15, T16, T17}
 
 // Combine merges several worlds into one module by prefixing their package directories.
 // Import paths inside the sources are rewritten accordingly.
